@@ -35,7 +35,7 @@ def from_u16(csv):
 def run(ctx):
     rng = ctx.rng
     impl = os.path.join(ctx.bdir, "harness", "implicu")
-    cps = sorted(set(ord(c) for s in SYMS for c in s) | {0x3000, 0x2028, 9})
+    cps = sorted(set(ord(c) for s in SYMS for c in s) | {0x3000, 0x2028, 9, 13})
     spaces = pvlib.run_lines(impl, ["icu.spaces " + ",".join(map(str, cps))], env=pvlib.san_env())[0].split()[1]
     ctx.cov["u_isspace_true_for"] = spaces
     texts = []
@@ -141,6 +141,11 @@ def run(ctx):
                 lines = [rng.choice(pool) for _ in range(rng.randrange(1, 7))]
                 if not check_seq(lines, lo, fl, nf, lang):
                     break
+    # carriage returns are characters like any other (CRLF corpora), and text that begins like a compressed file is text
+    for (lo, fl, nf) in [(0, 0, 0), (1, 0, 0), (0, 1, 1), (1, 1, 1)]:
+        for seq in (["Hello World\r", "\r", "a\r\r", "plain", "x\ry\r"], ["BZh91AY is how this line begins", "second"]):
+            if not check_seq(seq, lo, fl, nf, "en"):
+                return
     # a line that ENDS in the beginning of a multi-character rule, after lines that have the whole rule at the same
     # column (the tool reuses its string objects: what follows the end of the line in memory is the previous text)
     rules = ["``", "''", "& quot ;", "& lt ;", "& gt ;", "& amp ;", "' s", "- year - old", "0{"]
